@@ -133,8 +133,7 @@ static void wakeup_event_condition(void *vp, void *arg)
  *
  * Also note that this runs atomically within one thread, since none of the
  * resumed processes (coroutines) will get the CPU before the one running this
- * chooses to yield it. Hence, safe to schedule the wakeup events in the first
- * iteration where the process pointers are easily available.
+ * chooses to yield it.
  */
 bool cmb_condition_signal(struct cmb_condition *cvp)
 {
@@ -151,33 +150,45 @@ bool cmb_condition_signal(struct cmb_condition *cvp)
     }
 
     /* Allocate space enough to reactivate everything in the heap */
-    uint64_t *tmp = cmi_malloc(hp->heap_count * sizeof(*tmp));
+    struct cmi_heap_tag *tmp = cmi_malloc(hp->heap_count * sizeof(*tmp));
 
-    /* First pass, recording the satisfied demand predicates */
+    /*
+     * First pass, recording the satisfied demand predicates. The heap array is
+     * only partially ordered, so keep the list sorted in waiting order (higher
+     * priority first, then first come) to wake them up in that order.
+     */
     for (uint64_t ui = 1; ui <= hp->heap_count; ui++) {
         /* Decode the hashheap item */
-        struct cmi_heap_tag *htp = &(hp->heap[ui]);
-        void **item = htp->item;
-        struct cmb_process *pp = item[0];
-        cmb_condition_demand_func *demand = item[1];
-        const void *ctx = item[2];
+        const struct cmi_heap_tag *htp = &(hp->heap[ui]);
+        struct cmb_process *pp = htp->item[0];
+        cmb_condition_demand_func *demand = htp->item[1];
+        const void *ctx = htp->item[2];
 
         if ((*demand)(cvp, pp, ctx)) {
-            /* Satisfied, note it on the list, schedule wakeup event */
+            /* Satisfied, note it on the list */
             cmb_logger_info(stdout, "Condition %s satisfied for process %s",
                             rbp->name, pp->name);
-            tmp[cnt++] = htp->key;
-            const double time = cmb_time();
-            const int64_t priority = cmb_process_priority(pp);
-            (void)cmb_event_schedule(wakeup_event_condition, pp,
-                                     (void *)CMB_PROCESS_SUCCESS,
-                                     time, priority);
+            uint64_t pos = cnt++;
+            while ((pos > 0u) && (*(hp->heap_compare))(htp, &(tmp[pos - 1u]))) {
+                tmp[pos] = tmp[pos - 1u];
+                pos--;
+            }
+            tmp[pos] = *htp;
         }
     }
 
-    /* Second pass, remove the satisfied waiters from the hashheap */
+    /*
+     * Second pass, schedule the wakeup events and remove the satisfied waiters
+     * from the hashheap
+     */
     for (uint64_t ui = 0u; ui < cnt; ui++) {
-        cmi_hashheap_remove(hp, tmp[ui]);
+        struct cmb_process *pp = tmp[ui].item[0];
+        const double time = cmb_time();
+        const int64_t priority = cmb_process_priority(pp);
+        (void)cmb_event_schedule(wakeup_event_condition, pp,
+                                 (void *)CMB_PROCESS_SUCCESS,
+                                 time, priority);
+        cmi_hashheap_remove(hp, tmp[ui].key);
     }
 
     cmi_free(tmp);
